@@ -274,7 +274,10 @@ public:
 	{
 		_thread = 0;
 		_threadFinished = false;
-		*this = start(f, this);
+		// start directly on this object: assigning the copy returned by start() would overwrite a finished flag already set by the new thread
+		Context<F> s = { f, this, false, 0, 0, 0 };
+		run((Function_)Thread::beginf<F>, (void*)&s);
+		while (!s.ready) {}
 	}
 	template<class Func>
 	static Thread start(const Func& f, Thread* t)
